@@ -30,7 +30,7 @@ Proof.
   induction 1; simpl.
   - constructor.
   - destruct (f x); [constructor|]; assumption.
-  - destruct (f x), (f y); try constructor; try apply Permutation_refl. constructor. apply Permutation_refl.
+  - destruct (f x), (f y); try apply Permutation_refl. apply perm_swap.
   - eapply Permutation_trans; eassumption.
 Qed.
 
@@ -164,8 +164,8 @@ Qed.
 (* several candidates: the chosen one is the one the hint names *)
 Lemma chosen_hint tg hint t : (2 <= length tg)%nat -> chosen tg hint = Some t -> hint = Some (ms_name t) /\ ms_name t <> "".
 Proof.
-  unfold chosen. destruct tg as [|a [|b r]]; simpl; try lia. intros _.
-  destruct hint as [h|]; simpl; [|discriminate].
+  intro HL. destruct tg as [|a [|b r]]; [simpl in HL; lia|simpl in HL; lia|]. clear HL.
+  unfold chosen, falsy_hint, hint_str. destruct hint as [h|]; [|discriminate].
   destruct (String.eqb h "") eqn:E; [discriminate|]. intro H.
   apply find_some_in in H. destruct H as [_ H]. apply String.eqb_eq in H. subst h. split; [reflexivity|].
   intro H0. rewrite H0 in E. discriminate.
@@ -218,6 +218,16 @@ Proof.
   - destruct (String.eqb (ms_name t) (ms_name a)) eqn:E.
     + apply String.eqb_eq in E. exfalso. apply Hnotin. rewrite <- E. apply in_map. exact Hin.
     + apply IH; auto.
+Qed.
+
+Lemma chosen_by_hint tg t :
+  (2 <= length tg)%nat -> NoDup (map ms_name tg) -> In t tg -> ms_name t <> "" ->
+  chosen tg (Some (ms_name t)) = Some t.
+Proof.
+  intros HL Hnd Hin Hne. destruct tg as [|a [|b r]]; [simpl in HL; lia|simpl in HL; lia|].
+  unfold chosen, falsy_hint, hint_str.
+  destruct (String.eqb (ms_name t) "") eqn:E; [apply String.eqb_eq in E; congruence|].
+  apply find_by_name_unique; auto.
 Qed.
 
 Lemma chosen_perm tg tg' hint :
@@ -314,7 +324,7 @@ Proof.
   - fold (tgs p o). destruct (chosen (tgs p o) hint) as [t|] eqn:Ech.
     + rewrite (place_chosen fixed _ p o hint force t Ech).
       destruct (store p o t force) as [[p'|e'] w1] eqn:Es; simpl; [|left; reflexivity].
-      right. exists o, t. split; [reflexivity|]. split; [reflexivity|].
+      right. exists o, t. split; [reflexivity|]. split; [exact Ech|].
       apply store_shape in Es.
       destruct (enabled && validate); [destruct (validate_ok p')|]; simpl; exact Es.
     + destruct (place_not_chosen fixed _ p o hint force Ech) as [[e [-> _]]|[_ ->]]; simpl; [left; reflexivity|].
@@ -323,7 +333,7 @@ Proof.
     fold (tgs p o). destruct (chosen (tgs p o) hint) as [t|] eqn:Ech.
     + rewrite (place_chosen fixed _ p o hint force t Ech).
       destruct (store p o t force) as [[p'|e'] w1] eqn:Es; simpl; [|left; reflexivity].
-      right. exists o, t. split; [exists w0; reflexivity|]. split; [reflexivity|].
+      right. exists o, t. split; [exists w0; reflexivity|]. split; [exact Ech|].
       apply store_shape in Es.
       destruct (enabled && validate); [destruct (validate_ok p')|]; simpl; exact Es.
     + destruct (place_not_chosen fixed _ p o hint force Ech) as [[e [-> _]]|[_ ->]]; simpl; [left; reflexivity|].
